@@ -117,6 +117,8 @@ SITE = [
          extern={"len(range(indices[i, 0], indices[i, 1], indices[i, 2]))": "Ok rlen"}),
     dict(name="sv_cm_break", file="sparse/numba_backend/_coo/indexing.py", func="_compute_mask",
          locator=("float_test", 0), params=["n_current_slices", "n_pairs", "n_matches"]),
+    # moveaxis: WHICH validation statement runs WHEN (the repeat test must see normalised axes)
+    dict(name="site_moveaxis_steps", file=CM, func="moveaxis", locator=("moveaxis_steps",)),
     # the outer-loop tests of the two COO x ndarray kernels (the guard that repaired D3 lives here)
     dict(name="sv_dcn_outer_test", file=CM, func="_dot_coo_ndarray_type._dot_coo_ndarray", locator=("while_test", 0),
          params=["didx1", "n", "ncols"], extern={"len(data1)": "Ok n", "out_shape[1]": "Ok ncols"}),
